@@ -28,7 +28,7 @@ MANIFEST = dict(
         design="5/C11")
 CFG = {
     "quick":    dict(mc="MC_Dispatch.cfg",   gens=["Gen_Dispatch.cfg", "Gen_Dispatch_f.cfg"],   nhist=24,  steps=100),
-    "thorough": dict(mc="MC_Dispatch_t.cfg", gens=["Gen_Dispatch_t.cfg", "Gen_Dispatch_f.cfg"], nhist=300, steps=300),
+    "thorough": dict(mc="MC_Dispatch_t.cfg", gens=["Gen_Dispatch_t.cfg", "Gen_Dispatch_f.cfg"], nhist=200, steps=250),
 }
 ENV = {"ASAN_OPTIONS": vlib.ASAN_ENV + ":symbolize=0"}
 CHUNK = 8000
